@@ -48,7 +48,8 @@ Fixpoint cl_go (fl : N) (copying : bool) (src : str) (sep : bool) (out : str) {s
     | [] => cl_finish sep out                                 (* src[0] == NUL : break *)
     | c0 :: r0 =>
       (* "Copy current element, including leading '/'" : if (separator) *dest++ = '/'; then the while loop *)
-      let copy_elem := cl_go fl true r0 sep ((out ++ (if sep then [SLASH] else [])) ++ [c0]) in
+      (* (a function of the output so far: evaluated only in the branches that copy) *)
+      let copy_from (o : str) := cl_go fl true r0 sep ((o ++ (if sep then [SLASH] else [])) ++ [c0]) in
       if c0 =? SLASH then cl_go fl false r0 sep out           (* found '//', ignore second one *)
       else if c0 =? DOT then
         match r0 with
@@ -57,13 +58,13 @@ Fixpoint cl_go (fl : N) (copying : bool) (src : str) (sep : bool) (out : str) {s
           if c1 =? SLASH then cl_go fl false r1 sep out       (* skip './' *)
           else if c1 =? DOT then
             match r1 with
-            | [] => if has fl EXTRACT_SECURE_NODOTDOT then ClDotDot else copy_elem
+            | [] => if has fl EXTRACT_SECURE_NODOTDOT then ClDotDot else copy_from out
             | c2 :: _ => if (c2 =? SLASH) && has fl EXTRACT_SECURE_NODOTDOT then ClDotDot
-                         else copy_elem
+                         else copy_from out
             end
-          else copy_elem
+          else copy_from out
         end
-      else copy_elem
+      else copy_from out
     end.
 
 Definition cl_scan (fl : N) (src : str) (sep : bool) (out : str) : cl_result := cl_go fl false src sep out.
